@@ -16,7 +16,8 @@ RULE = ("Hypothesis draws (store algorithm, content, checksum algorithm from all
         "set changes only as stated (store adds nothing; dii removes the object iff no reference "
         "list names it); valid => normal return, nothing removed. Non-trivial = non-default "
         "checksum algorithm, or non-lower-case checksum, or content already present; distinct key = "
-        "(entry, prior, canonical algorithm, spelling shape, checksum form, size form, size class).")
+        "(entry, prior, canonical algorithm, spelling shape, checksum form, size form, size class)."
+        ' Further checksum forms: a look-alike (one hex digit replaced by a Cyrillic / full-width twin) and the true digest of ANOTHER object that is in the store (often under the store algorithm, i.e. its cid).')
 ASSUMPTIONS = ["the ObjectMetadata given to delete_if_invalid_object is the one store_object returned",
                "expected sizes are positive integers (non-positive / non-integer sizes belong to C17)"]
 PID, OTHER = "pid:under/test", "pid:other"
